@@ -279,6 +279,15 @@ case("F66 max on the numba engine with a NaN member", lambda: groupby_reduce(np.
 case("F67 automatic plan with a zero-length chunk", lambda: groupby_reduce(da.from_array(np.arange(24.0), chunks=((5, 7, 0, 12),)), np.array([0] * 5 + [1] * 7 + [2] * 12), func="sum", expected_groups=np.arange(4), fill_value=-1)[0].compute().tolist(), lambda r: r == [10.0, 56.0, 210.0, -1.0])
 # F68
 case("F68 nancumsum over a zero-length chunk", lambda: [groupby_scan(da.from_array(np.array([1.0, 2.0, 3.0]), chunks=c), np.array([0, 0, 1]), func="nancumsum").compute(scheduler="sync").tolist() for c in (((2, 0, 1),), ((3, 0),), ((0, 1, 0, 2),))], lambda r: r == [[1.0, 3.0, 3.0]] * 3)
+# F69
+def f69():
+    u = np.array([2**63 + 1] * 3 + [2**62 + 1] * 3 + [1] * 6, dtype=np.uint64)
+    fl = np.array([0, 0, 2, 2, 2, 1, 1, 2, 2, 1, 1, 0], float)
+    fl[:3] = np.nan
+    return groupby_reduce(da.from_array(u, chunks=3), da.from_array(fl, chunks=3), func="max")[0].compute().tolist()
+
+
+case("F69 uint64 max next to a block of missing labels", f69, lambda r: r == [1, 2**62 + 1, 2**62 + 1])
 
 bad = 0
 for name, verdict in results:
